@@ -808,6 +808,14 @@ def hist_stats(h, hist):
                         hist["del-option:" + kind] = hist.get("del-option:" + kind, 0) + 1
                         if len(l) > 3 and l[3]:
                             hist["del-continuation-line"] = hist.get("del-continuation-line", 0) + 1
+                if b["op"] == "copy":
+                    b2 = b["a"] if b.get("b") is None else b["b"]
+                    if b2 == -1 and b["a"] < 0:
+                        hist["copy-target-ending-at--1"] = hist.get("copy-target-ending-at--1", 0) + 1
+                    elif b["a"] >= 0 > b2:
+                        hist["copy-target-nonneg-to-negative"] = hist.get("copy-target-nonneg-to-negative", 0) + 1
+                    elif b["a"] < 0 <= b2:
+                        hist["copy-target-negative-to-nonneg"] = hist.get("copy-target-negative-to-nonneg", 0) + 1
                 if b["op"] == "cells":
                     hist["cells-option:" + b.get("opt", "cells")] = hist.get("cells-option:" + b.get("opt", "cells"), 0) + 1
 
@@ -986,6 +994,8 @@ MANIFEST = dict(
          "EQUILIBRIUM_PHASES -eltList (rebuilt by tidy). Measured, not required: the component list equals the union over "
          "the visible entries in ~89% of calls; the rest carries elements of entities under scratch numbers, which "
          "DELETE of the visible entries does not remove (DELETE -all does). Selective DUMP options are tied by theorem "
-         "only (dump_options_wired); the observing dump is always -all. Known findings: crash-gas-phase-mixed-from-nothing, "
-         "crash-modify-of-empty-solid-solution.",
+         "only (dump_options_wired); the observing dump is always -all. Fixed corpus histories replayed every run: the two "
+         "COPY range shapes of the former size_t loop (7d4d2190) and the two crashes on entities mixed from nothing "
+         "(e9270b5d, 03535ceb); every harness process runs under a 3 GB address-space limit and a time limit, so a COPY "
+         "loop that does not end is reported, not avoided.",
 )
